@@ -373,6 +373,26 @@ fn inferred_functions(thorough: bool) -> Vec<Case> {
             }
         }
     }
+    // generic signatures that mix bounded and unbounded type parameters, in both orders, with each
+    // parameter annotated by a declared type parameter or left to inference, with and without a
+    // where-clause
+    {
+        let lists: [(&str, &[&str]); 6] = [("<T>", &["T"]), ("<D: Dim>", &["D"]), ("<T, D: Dim>", &["T", "D"]), ("<D: Dim, T>", &["D", "T"]), ("<T, U>", &["T", "U"]), ("<D: Dim, E: Dim>", &["D", "E"])];
+        let bodies = ["a", "b", "[a]", "\"{a}\"", "b * 2", "if a == a then b else b"];
+        for (list, names) in lists {
+            let mut anns: Vec<String> = vec![String::new()];
+            anns.extend(names.iter().map(|n| format!(": {n}")));
+            for aa in &anns {
+                for ab in &anns {
+                    for body in bodies {
+                        let probes: Vec<String> = ["fnm_a(2 m, 3 s)", "fnm_a(\"s\", 2 m)", "fnm_a(true, 3)", "fnm_a(2, \"t\")"].iter().map(|p| p.to_string()).collect();
+                        out.push(cp("mixed generic signature", format!("fn fnm_a{list}(a{aa}, b{ab}) = {body}"), &probes));
+                        out.push(cp("mixed generic signature", format!("fn fnm_a{list}(a{aa}, b{ab}) = lb\n  where lb = {body}"), &probes));
+                    }
+                }
+            }
+        }
+    }
     // bodies of other kinds
     for (decl, probes) in [
         ("fn fni_a(x) = x", vec!["fni_a(2 m)", "fni_a(\"a\")", "fni_a([1])", "fni_a(true)"]),
@@ -862,6 +882,55 @@ pub fn classify(ctx: &Context, code: &str, echo: &str, echo2: Option<&str>, kind
                     let name = &rest[..p];
                     if rest[..rest.find('{').unwrap_or(rest.len())].contains('<') && echo.lines().any(|e| e.starts_with(&format!("struct {name} {{"))) {
                         return c("echo-generic-struct-parameters");
+                    }
+                }
+            }
+        }
+    }
+    // a generic function whose echoed type-parameter list is not the declared one (names are
+    // re-assigned by position after the checker has reordered the quantified variables)
+    if let (Some(src), Some(ech)) = (code.lines().next(), echo.lines().next()) {
+        let list = |l: &str| -> Option<Vec<String>> {
+            let rest = l.strip_prefix("fn ")?;
+            let lt = rest.find('<')?;
+            let paren = rest.find('(')?;
+            if lt > paren {
+                return None;
+            }
+            let gt = rest[lt..].find('>')? + lt;
+            let mut v: Vec<String> = rest[lt + 1..gt].split(',').map(|x| x.replace(' ', "")).collect();
+            v.sort();
+            Some(v)
+        };
+        if let (Some(a), Some(b)) = (list(src), list(ech)) {
+            if a != b {
+                return c("echo-generic-parameter-renaming");
+            }
+            // the second echo may be the one that re-assigns the names
+            if let Some(b2) = echo2.and_then(|e| e.lines().next()).and_then(list) {
+                if b2 != b {
+                    return c("echo-generic-parameter-renaming");
+                }
+            }
+        }
+        // a where-local of a generic function is annotated with the checker's canonical letters
+        // (A, B, …) instead of the function's own type parameters
+        if let Some(rest) = ech.strip_prefix("fn ") {
+            let declared: Vec<String> = match (rest.find('<'), rest.find('(')) {
+                (Some(lt), Some(p)) if lt < p => rest[lt + 1..rest[lt..].find('>').map(|g| g + lt).unwrap_or(lt + 1)].split(',').map(|x| x.split(':').next().unwrap_or("").trim().to_string()).collect(),
+                _ => vec![],
+            };
+            for l in echo.lines().skip(1) {
+                let t = l.trim_start();
+                if let Some(rest) = t.strip_prefix("where ").or_else(|| t.strip_prefix("and ")) {
+                    if let (Some(colon), Some(eq)) = (rest.find(": "), rest.find(" = ")) {
+                        if colon < eq {
+                            let ann = &rest[colon + 2..eq];
+                            let stray = ann.split(|ch: char| !ch.is_alphanumeric()).any(|w| w.len() == 1 && w.chars().all(|ch| ch.is_ascii_uppercase()) && !declared.iter().any(|d| d == w));
+                            if stray {
+                                return c("echo-where-local-type-variable");
+                            }
+                        }
                     }
                 }
             }
